@@ -310,9 +310,11 @@ pub fn replay(args: &Args) -> i32 {
         }
         if !table_ok { continue; }
         let obs = observe(&file, &book);
-        let is_asis = obs == b["asis"];
+        let strictly_asis = obs == b["asis"];
+        // a reader with some of the listed deviations repaired reads part of the workbook as the ideal says
+        let is_asis = strictly_asis || (!unspec && explained_mix(&obs, &b["ideal"], &b["asis"]));
         if unspec {
-            if !is_asis { rep.fail("unexplained", doc, b["asis"].clone(), obs); }
+            if !strictly_asis { rep.fail("unexplained", doc, b["asis"].clone(), obs); }
         } else if obs == b["ideal"] {
             matched_ideal += 1;
             if rep.evaluated % 397 == 1 { rep.sample(json!({"doc": doc, "observed": obs})); }
